@@ -533,6 +533,11 @@ func workerMain(c *mon.Ctx) {
 		limMiB = v
 	}
 	debug.SetMemoryLimit(int64(limMiB) << 20)
+	// A goroutine stack limit that fits under the address-space cap, so that unbounded recursion ends
+	// as Go's "goroutine stack exceeds ... limit" (fatal: stack overflow) and not as memory exhaustion
+	// while growing towards the default 1 GB. The deepest legitimate recursion met (a 1 MiB type
+	// descriptor nested 524288 deep) needs about 256 MiB.
+	debug.SetMaxStack(512 << 20)
 	if v, err := strconv.Atoi(os.Getenv("C04_GOGC")); err == nil {
 		debug.SetGCPercent(v)
 	}
